@@ -52,6 +52,33 @@ func provEdits(prov string, n int, withRdt bool) specs.ContainerEdits {
 	return e
 }
 
+// onlyMembers: the members an edits object can be reduced to (Content.Only)
+var onlyMembers = []string{"env", "deviceNodes", "mounts", "hooks", "additionalGids", "intelRdt"}
+
+// editsFor is provEdits, reduced to the single member c.Only when that is set (an edits object is
+// an edits object whichever of its members it uses: a file's Spec-level edits that consist of
+// additional GIDs alone, or of an RDT class alone, take part in the composition like any other)
+func editsFor(c Content, prov string, n int, withRdt bool) specs.ContainerEdits {
+	e := provEdits(prov, n, withRdt || c.Only == "intelRdt")
+	switch c.Only {
+	case "":
+		return e
+	case "env":
+		return specs.ContainerEdits{Env: e.Env}
+	case "deviceNodes":
+		return specs.ContainerEdits{DeviceNodes: e.DeviceNodes}
+	case "mounts":
+		return specs.ContainerEdits{Mounts: e.Mounts}
+	case "hooks":
+		return specs.ContainerEdits{Hooks: e.Hooks}
+	case "additionalGids":
+		return specs.ContainerEdits{AdditionalGIDs: e.AdditionalGIDs}
+	case "intelRdt":
+		return specs.ContainerEdits{IntelRdt: e.IntelRdt}
+	}
+	panic("harness: unknown member " + c.Only)
+}
+
 type fileDef struct {
 	dir, name, kind string
 	devs            []string
@@ -67,6 +94,8 @@ type Content struct {
 	DirOrder []string `json:"directory_list,omitempty"`
 	// Linked: the Spec files of the higher directory are symbolic links to files kept elsewhere
 	Linked bool `json:"higher_directory_holds_symbolic_links,omitempty"`
+	// Only: every edits object of the content (Spec-level and device-level) holds this one member only
+	Only string `json:"every_edits_object_holds_only,omitempty"`
 }
 
 func (c Content) order() []string {
@@ -110,6 +139,14 @@ func contents(thorough bool) []Content {
 			l.Name += "+d1-files-are-symlinks"
 			l.Linked = true
 			out = append(out, l)
+		}
+		if mask == 7 {
+			for _, m := range onlyMembers {
+				o := c
+				o.Name += "+only-" + m
+				o.Only = m
+				out = append(out, o)
+			}
 		}
 		if mask == 5 || mask == 7 {
 			// the low directory listed once more at the end: now it shadows the other one
@@ -162,10 +199,10 @@ func writeContent(root string, c Content) error {
 		f := &c.Files[i]
 		raw := specs.Spec{Version: "1.0.0", Kind: f.kind}
 		if f.specEdits {
-			raw.ContainerEdits = provEdits(prov(f, "SPEC"), 10*i, true)
+			raw.ContainerEdits = editsFor(c, prov(f, "SPEC"), 10*i, true)
 		}
 		for j, d := range f.devs {
-			raw.Devices = append(raw.Devices, specs.Device{Name: d, ContainerEdits: provEdits(prov(f, d), 10*i+j+1, j%2 == 0)})
+			raw.Devices = append(raw.Devices, specs.Device{Name: d, ContainerEdits: editsFor(c, prov(f, d), 10*i+j+1, j%2 == 0)})
 		}
 		dir := filepath.Join(root, f.dir)
 		if err := os.MkdirAll(dir, 0o755); err != nil {
@@ -260,14 +297,14 @@ func (v *env) eval1(c Case) hx.Result {
 			if !seen[f] {
 				seen[f] = true
 				if f.specEdits {
-					appendEdits(&combined, provEdits(prov(f, "SPEC"), 10*i, true))
+					appendEdits(&combined, editsFor(content, prov(f, "SPEC"), 10*i, true))
 					involved[prov(f, "SPEC")] = true
 				}
 			}
 			dev := q[strings.IndexByte(q, '=')+1:]
 			for j, d := range f.devs {
 				if d == dev {
-					appendEdits(&combined, provEdits(prov(f, d), 10*i+j+1, j%2 == 0))
+					appendEdits(&combined, editsFor(content, prov(f, d), 10*i+j+1, j%2 == 0))
 					involved[prov(f, d)] = true
 				}
 			}
@@ -459,7 +496,7 @@ func main() {
 			}
 		}
 	}
-	r.Rule = fmt.Sprintf("%d cache contents (files F1{a,b},F2{c} in the high directory, F0{a(shadowed),d} in the low one; spec-level edits present/absent per file; thorough adds F3,F4) x every ordered selection of distinct resolvable devices up to length %d x %d initial OCI specs; "+
+	r.Rule = fmt.Sprintf("%d cache contents (files F1{a,b},F2{c} in the high directory, F0{a(shadowed),d} in the low one; spec-level edits present/absent per file; six contents in which every edits object holds one member only - env, deviceNodes, mounts, hooks, additionalGids, intelRdt; thorough adds F3,F4) x every ordered selection of distinct resolvable devices up to length %d x %d initial OCI specs; "+
 		"every edit list carries a provenance-unique variable and entries colliding with every other list (env name, device path, mount destination, hook stage, RDT, GID). Oracle: edit list composed independently per the statement, applied once; provenance scan. "+
 		"Distinct by construction; non-trivial = non-empty request", len(v.cs), maxLen, len(shapeNames))
 	r.Assumptions = []string{"device nodes in the edits specify type and major, so no host lookup takes part", "the expected value uses the real ContainerEdits.Apply once on the combined list, exactly as the statement is worded (Apply itself is C03's subject)"}
